@@ -41,6 +41,22 @@ def spec_orders(tier, wd):
                    "behaviours_printed": len(hists), "wall_s": round(time.time() - t0, 1)}
 
 
+C = lambda s, cli=False: {"c": "connect", "s": s, "cli": cli}      # noqa: E731
+Q = lambda s, cls="query": {"c": "cmd", "s": s, "cls": cls}         # noqa: E731
+D = lambda s, how="close": {"c": "disconnect", "s": s, "how": how}  # noqa: E731
+STOP = {"c": "stop"}
+DIRECTED = [
+    [STOP],                                                # cancelled before anything else happened
+    [C(0), D(0), STOP],                                    # a client came and went before the stop
+    [C(0), STOP, D(0)],                                    # a client is connected at the stop and leaves afterwards
+    [C(0), STOP, Q(0), D(0)],                              # ... and sends one more command first
+    [C(0), Q(0), C(1, True), Q(1), D(0, "eof"), Q(1), STOP, D(1, "exit")],
+    [C(0, True), Q(0, "mutate"), C(1), Q(1), D(0, "eof"), Q(1), D(1), STOP],
+    [{"c": "connect", "s": 0, "nohandshake": True}, D(0), C(1), Q(1), D(1), STOP],   # a client that leaves before its handshake
+    [C(0), Q(0, "badarg"), Q(0, "unknown"), Q(0), D(0)],   # no stop: the server keeps serving
+]
+
+
 def to_script(hist, n):
     script, hows = [], ["close", "eof"]
     served = False
@@ -81,6 +97,12 @@ def run_pipeline(tier, seed, log):
         with_stop = [s for s in scripts if any(c["c"] == "stop" for c in s)]
         without = [s for s in scripts if not any(c["c"] == "stop" for c in s)]
         scripts = rng.sample(with_stop, min(len(with_stop), cap * 3 // 4)) + rng.sample(without, min(len(without), cap // 4))
+    # orders that are always run (each is also a behaviour of the specification): the stop at every distinguished moment
+    for tr in ("unix", "tcp"):
+        for d in DIRECTED:
+            s = [{"c": "serve", "tr": tr}] + d
+            if json.dumps(s) not in {json.dumps(x) for x in scripts}:
+                scripts.append(s)
     log("sockets: %d distinct event orders from the specification, running %d on real sockets" % (len(seen), len(scripts)))
     sys.path.insert(0, os.path.join(common.VERIF, "harness"))
     import ctlsock
